@@ -5,13 +5,18 @@ import (
 	"fmt"
 	"net"
 	"runtime"
+	"sort"
+	"strings"
 	"sync"
+	"sync/atomic"
 	"testing"
 	"time"
 
 	tq "github.com/facebookincubator/tacquito"
+	"verif/harness/cfggen"
 	"verif/harness/ev"
 	"verif/harness/model"
+	"verif/harness/refsrv"
 	"verif/harness/transport"
 
 	"pgregory.net/rapid"
@@ -37,12 +42,16 @@ type c17Case struct {
 	Cancel string    `json:"cancel"` // before-accept | in-accept | parked | in-handler | end
 	Target int       `json:"target"` // connection the cancel point refers to
 	Procs  int       `json:"procs"`  // GOMAXPROCS (0 = leave)
+	// Ref: the secret provider is the reference configuration loader, given the same context as
+	// Serve (as cmds/server/main.go does), and the handlers are the reference handlers
+	Ref bool `json:"ref,omitempty"`
 }
 
 func genC17(t *rapid.T) c17Case {
 	c := c17Case{
 		Cancel: rapid.SampledFrom([]string{"before-accept", "in-accept", "in-accept", "parked", "parked", "in-handler", "in-handler", "end"}).Draw(t, "cancel"),
 		Procs:  rapid.SampledFrom([]int{0, 1, 2}).Draw(t, "procs"),
+		Ref:    rapid.IntRange(0, 3).Draw(t, "ref_stack") == 0,
 	}
 	n := rapid.IntRange(0, 5).Draw(t, "nconns")
 	if c.Cancel == "in-accept" || c.Cancel == "in-handler" {
@@ -151,7 +160,41 @@ func runC17(t failer, c c17Case) {
 	// teardown and the log oracle decides; only if that finds nothing is the case inconclusive
 	const grace = 5 * time.Second
 	undecided := ""
-	srv := tq.NewServer(nopLogger{}, staticSP{secret: secret, handler: h})
+	var sp tq.SecretProvider = staticSP{secret: secret, handler: h}
+	// every Loader leaves one parked goroutine behind: bound how many a process creates
+	if c.Ref && atomic.AddInt64(&c17RefStacks, 1) <= 2000 {
+		ev.Class("reference-stack-with-shared-context")
+		cfg := cfggen.Config{Secrets: []cfggen.Secret{cfggen.NewSecret("s9", string(secret), "10.9.0.0/16")},
+			Users: []cfggen.User{{Name: "alice", Scopes: []string{"s9"}, Authenticator: cfggen.BcryptAuth("pw-alpha")}}}
+		st, err := refsrv.New(cfg.YAML(), refsrv.Options{Logger: refsrv.NopLogger{}, Ctx: ctx})
+		if err != nil {
+			t.Fatalf("HARNESS-BUG: %v", err)
+		}
+		defer st.Close()
+		rec := &refsrv.Recorder{}
+		idOf := func(cl *refsrv.Call) int {
+			var a, b, cc, d int
+			if _, err := fmt.Sscanf(cl.Conn, "%d.%d.%d.%d", &a, &b, &cc, &d); err == nil {
+				return cc<<8 | d
+			}
+			return -1
+		}
+		rec.OnBegin = func(cl *refsrv.Call) {
+			id := idOf(cl)
+			log.Add(transport.EvHandlerIn, id, 0, nil, "")
+			h.mu.Lock()
+			ch := h.hold[id]
+			delete(h.hold, id)
+			h.mu.Unlock()
+			if ch != nil {
+				h.entered <- id
+				<-ch
+			}
+		}
+		rec.OnEnd = func(cl *refsrv.Call) { log.Add(transport.EvHandlerOut, idOf(cl), 0, nil, "") }
+		sp = rec.SP(st.Loader)
+	}
+	srv := tq.NewServer(nopLogger{}, sp)
 	done := make(chan struct{})
 	go func() {
 		_ = srv.Serve(ctx, ln)
@@ -285,13 +328,27 @@ scripts:
 	}
 	select {
 	case <-done:
-	case <-time.After(watchdog):
+	case <-time.After(10 * time.Second):
 		for i, conn := range conns {
 			if accepted[i] && conn.UnarmedStall() {
 				fail("read-without-deadline", "connection %d: read blocked with no read deadline armed, Serve cannot return", i)
 			}
 		}
-		t.Fatalf("HARNESS-BUG/INCONCLUSIVE: Serve did not return within %v after cancellation although every read and Accept timed out", watchdog)
+		// Every input the server can wait for is owned by the harness and has been delivered (context
+		// cancelled, Accept timed out, every parked read timed out).  If no goroutine of the server is
+		// parked in the harness' Read or Accept, and the picture does not change, nothing can ever
+		// wake Serve: that is a hang, decided from the goroutines' state, not from the clock.
+		waiting1, frames1 := serverGoroutines()
+		time.Sleep(time.Second)
+		waiting2, frames2 := serverGoroutines()
+		select {
+		case <-done:
+		default:
+			if !waiting1 && !waiting2 && frames1 == frames2 {
+				fail("serve-never-returns", "Serve has not returned after cancellation although Accept and every read have timed out, and no server goroutine is waiting for the harness; blocked in:\n%s", frames1)
+			}
+			t.Fatalf("HARNESS-BUG/INCONCLUSIVE: Serve did not return within 10 s after cancellation (server goroutines waiting for the harness: %v)\n%s", waiting1 || waiting2, frames1)
+		}
 	}
 	_ = serveGone
 	// ---- oracles over the event log ----
@@ -457,4 +514,38 @@ func TestC17Regress(t *testing.T) {
 		mustUnmarshal(t, s, &c)
 		runC17(t, c)
 	}
+}
+
+var c17RefStacks int64
+
+// serverGoroutines inspects all goroutine stacks: waiting reports whether some goroutine that runs
+// tacquito code is parked inside the harness' scripted Read or Accept (i.e. waits for the harness);
+// frames lists, for every goroutine running tacquito code, its innermost tacquito frames.
+func serverGoroutines() (waiting bool, frames string) {
+	buf := make([]byte, 1<<20)
+	buf = buf[:runtime.Stack(buf, true)]
+	var out []string
+	for _, g := range strings.Split(string(buf), "\n\n") {
+		if !strings.Contains(g, "github.com/facebookincubator/tacquito") {
+			continue
+		}
+		if strings.Contains(g, "transport.(*Conn).Read") || strings.Contains(g, "transport.(*Listener).Accept") {
+			waiting = true
+		}
+		var fs []string
+		for _, ln := range strings.Split(g, "\n") {
+			if strings.HasPrefix(ln, "github.com/facebookincubator/tacquito") {
+				if i := strings.LastIndex(ln, "("); i > 0 {
+					ln = ln[:i]
+				}
+				fs = append(fs, ln)
+				if len(fs) == 3 {
+					break
+				}
+			}
+		}
+		out = append(out, strings.Join(fs, " < "))
+	}
+	sort.Strings(out)
+	return waiting, strings.Join(out, "\n")
 }
